@@ -215,6 +215,9 @@ inductive ChildMode
 inductive Field
   /-- attribute; `omitD`: not written when the value is the default -/
   | attr (name : Str) (ty : FTy) (omitD : Bool)
+  /-- attribute the parser reads but the writer never writes (a defect of the class: the schema is
+  not well-formed, `wfF` is false) -/
+  | attrReadOnly (name : Str) (ty : FTy)
   /-- the element's own text content -/
   | text (ty : FTy)
   /-- optional child whose TAG is the value (`<failed><item-not-found xmlns=…/></failed>`): the first
@@ -236,6 +239,10 @@ def Field.flagChild (h : Head) : Field := .child h [] .optional
 
 def textNode (s : Str) : List Node := if s.isEmpty then [] else [.text s]
 
+def Val.isSomeOpt : Val → Bool
+  | .opt (some _) => true
+  | _ => false
+
 def Val.recVals : Val → List Val
   | .record vs => vs
   | _ => []
@@ -246,6 +253,7 @@ mutual
   /-- attributes and children one field contributes -/
   def encF : Field → Val → List (Str × Str) × List Node
     | .attr name ty omitD, v => (if omitD && ty.isDefault v then [] else [(name, ty.show v)], [])
+    | .attrReadOnly _ _, _ => ([], [])
     | .text ty, v => ([], textNode (ty.show v))
     | .enumChild ns decl _ names _, v =>
       match v with
@@ -276,6 +284,7 @@ mutual
   /-- value of one field read from element `x` whose namespace is `pns` -/
   def decF (pns : Str) (x : Node) : Field → Val
     | .attr name ty _ => ty.parse (attr x.attrs name)
+    | .attrReadOnly name ty => ty.parse (attr x.attrs name)
     | .text ty => ty.parse (deepText x)
     | .enumChild ns _ anyNs names _ =>
       match x.kids.find? (matchesNs ns anyNs pns) with
@@ -297,6 +306,7 @@ end
 mutual
   def canonF : Field → Val → Bool
     | .attr _ ty _, v => ty.canon v
+    | .attrReadOnly _ ty, v => ty.canon v
     | .text ty, v => ty.canon v
     | .enumChild _ _ _ names _, v =>
       match v with
@@ -325,6 +335,7 @@ end
 /-- (tag, namespace) pairs of the child elements a field can emit -/
 def Field.heads : Field → List (Str × Str)
   | .attr .. => []
+  | .attrReadOnly .. => []
   | .text _ => []
   | .enumChild ns _ _ names _ => names.map fun n => (n, ns)
   | .child h _ _ => [(h.tag, h.ns)]
@@ -332,11 +343,13 @@ def Field.heads : Field → List (Str × Str)
 
 def Field.emitsKids : Field → Bool
   | .attr .. => false
+  | .attrReadOnly .. => false
   | _ => true
 
 /-- the children of the element that influence what field `f` reads -/
 def Field.sees (pns : Str) : Field → Node → Bool
   | .attr .., _ => false
+  | .attrReadOnly .., _ => false
   | .text _, _ => true
   | .enumChild ns _ anyNs _ _, k => matchesNs ns anyNs pns k
   | .child h _ _, k => h.matches pns k
@@ -345,12 +358,22 @@ def Field.sees (pns : Str) : Field → Node → Bool
 /-- the attribute names field `f` reads -/
 def Field.reads : Field → Str → Bool
   | .attr n _ _, k => n == k
+  | .attrReadOnly n _, k => n == k
+  | _, _ => false
+
+/-- the attribute names field `f` writes -/
+def Field.writes : Field → Str → Bool
+  | .attr n _ _, k => n == k
   | _, _ => false
 
 /-- `indep f g`: nothing that `g` writes is visible to the way `f` reads -/
 def indep (f g : Field) : Bool :=
   match f with
   | .attr n _ _ =>
+    match g with
+    | .attr n' _ _ => n != n'
+    | _ => true
+  | .attrReadOnly n _ =>
     match g with
     | .attr n' _ _ => n != n'
     | _ => true
@@ -374,6 +397,7 @@ def Head.ok (pns : Str) (h : Head) : Bool := h.decl || h.ns == pns
 mutual
   def wfF (pns : Str) : Field → Bool
     | .attr name ty _ => name != xmlnsKey && ty.wf
+    | .attrReadOnly _ _ => false
     | .text ty => ty.wf
     | .enumChild ns decl _ names _ => (decl || ns == pns) && !names.contains [] && nodupB names
     | .child h fs _ => h.ok pns && wfFs h.ns fs
@@ -402,7 +426,7 @@ def nestedNoMand : Field → Bool
 
 /-- mandatory top-level fields carry a value -/
 def mandOK : List Field → List Val → Bool
-  | .enumChild _ _ _ _ true :: fs, v :: vs => (v != .opt none) && mandOK fs vs
+  | .enumChild _ _ _ _ true :: fs, v :: vs => v.isSomeOpt && mandOK fs vs
   | _ :: fs, _ :: vs => mandOK fs vs
   | _, _ => true
 
